@@ -167,6 +167,31 @@ func init() {
 					Run:  func(c *fw.Ctx, i int64) { c04Run(c, kind, stringByIndex(al, i)) },
 					Repr: func(i int64) string { return fmt.Sprintf("%s tokenizer, input %q", kind, stringByIndex(al, i)) }})
 			}
+			// sequences of whole lexemes (keywords in several letter cases, numbers, strings, comments, symbols)
+			// written next to each other without any separator
+			lexLen := 2
+			if tier == "thorough" {
+				lexLen = 3
+			}
+			for _, kind := range []string{"generic", "expression"} {
+				kind := kind
+				pool := c13Pool(kind)
+				sp = append(sp, fw.Space{Name: "lexemes-" + kind, N: countStrings(len(pool), lexLen),
+					Run: func(c *fw.Ctx, i int64) {
+						var sb strings.Builder
+						for _, k := range seqByIndex(len(pool), i) {
+							sb.WriteString(pool[k].text)
+						}
+						c04Run(c, kind, sb.String())
+					},
+					Repr: func(i int64) string {
+						var sb strings.Builder
+						for _, k := range seqByIndex(len(pool), i) {
+							sb.WriteString(pool[k].text)
+						}
+						return fmt.Sprintf("%s tokenizer, input %q", kind, sb.String())
+					}})
+			}
 			counts := pumpCountsSmall
 			if tier == "thorough" {
 				counts = pumpCounts
